@@ -7,7 +7,7 @@
    [owner_of], [get_approved], [is_approved_for_all] - the same functions whose values the
    correspondence run compares with the real contracts after every call. *)
 From SC Require Import Lib.Prelude Lib.Int Lib.Host Model.Nft Run.NftCommon Proofs.NftMaps Proofs.NftFrame
-  Proofs.NftInv Proofs.NftCons Proofs.NftOwn Proofs.NftSim Proofs.C11Final Run.C11 Proofs.C11Monitor.
+  Proofs.NftInv Proofs.NftCons Proofs.NftOwn Proofs.NftSim Proofs.NftScope Proofs.C11Final Run.C11 Proofs.C11Monitor.
 Local Open Scope N_scope.
 
 (* In EVERY state (not only reachable ones), for the three flavours: a transfer or burn that
@@ -146,59 +146,134 @@ Theorem C11_getters_refine_tables : forall fl c now0 cs,
 Proof. exact getters_refine_tables. Qed.
 Print Assumptions C11_getters_refine_tables.
 
-(* The executable monitor (the property as a boolean over observed calls, authorisation sets,
-   outcomes and getter values) accepts every trace of the model, whatever is queried; it is what is
-   run on the implementation's traces. *)
+(* Ownership changes in no other way: over any stretch of calls in which no transfer / burn / mint of token
+   id succeeded (see [writes] above), owner_of id is unchanged - all flavours (for the consecutive one this
+   includes the moves of the NEIGHBOURING token, which rewrite the marker of id). *)
+Theorem C11_owner_changes_only_by_move_or_mint : forall fl c now0 cs1 cs2 id,
+  forallb (fun co => negb (writes id co)) (outcomes fl c (run fl c (init now0) cs1) cs2) = true ->
+  owner_of fl c (run fl c (init now0) (cs1 ++ cs2)) id = owner_of fl c (run fl c (init now0) cs1) id.
+Proof. exact owner_changes_only_by_move_or_mint. Qed.
+Print Assumptions C11_owner_changes_only_by_move_or_mint.
+
+(* The executable monitor (the property as a boolean over observed calls, authorisation sets, outcomes and
+   getter values) accepts every trace of the model whose QUERIES are well formed ([wf_run]: exactly the shape
+   test the monitor applies itself - owner_of / get_approved asked for the same strictly increasing ids
+   covering 0 .. next_id+2, all individually assigned ids and the ids the call names; is_approved_for_all
+   asked for every pair ever appointed).  No freshness hypothesis: when the run leaves the quantifier (a mint
+   onto a live id) the monitor stops judging.  It is what is run on the implementation's traces. *)
 Theorem C11_monitor_accepts_model : forall fl c now0 full (l : list (call * obs)),
+  wf_run fl c (init now0) (ghost0 now0) l = true ->
   check (model_trace fl c now0 full l) = (0, 0, 0).
 Proof. exact c11_check_accepts_model. Qed.
 Print Assumptions C11_monitor_accepts_model.
 
-(* the monitor is not vacuous: it rejects a transfer_from by a stranger that succeeds, a stale
-   approval still reported after a transfer, and an operator acting on somebody else's token *)
-Example C11_monitor_rejects_bad_traces :
-  let ob own ap op := mkObs 1 [(0, own)] [] [(0, ap)] op 0 [] [] in
-  let hdr := mkTrace FBase (Build_cfg (Build_hostcfg 1 1000) 3200 32000) 10 true in
-  (* stranger 2 moves token 0 of owner 0 *)
-  monitor (hdr [(MintSeq 0, Ok (Some 0), ob (Some 0) None []);
-                (TransferFrom [2] 2 0 2 0, Ok None, ob (Some 2) None [])]) = 2 /\
-  (* approval for 3 given by the previous owner still reported after the transfer *)
-  monitor (hdr [(MintSeq 0, Ok (Some 0), ob (Some 0) None []);
-                (Approve [0] 0 3 0 50%Z, Ok None, ob (Some 0) (Some 3) []);
-                (Transfer [0] 0 1 0, Ok None, ob (Some 1) (Some 3) [])]) = 3 /\
-  (* ... and an honest trace with the same calls passes *)
-  monitor (hdr [(MintSeq 0, Ok (Some 0), ob (Some 0) None []);
-                (Approve [0] 0 3 0 50%Z, Ok None, ob (Some 0) (Some 3) []);
-                (Transfer [0] 0 1 0, Ok None, ob (Some 1) None [])]) = 0 /\
-  (* approval used one ledger after its live_until *)
-  monitor (hdr [(MintSeq 0, Ok (Some 0), ob (Some 0) None []);
-                (Approve [0] 0 3 0 12%Z, Ok None, ob (Some 0) (Some 3) []);
-                (Advance 3, Ok None, ob (Some 0) None []);
-                (TransferFrom [3] 3 0 3 0, Ok None, ob (Some 3) None [])]) = 4 /\
-  (* operator of account 1 moves a token of account 0 *)
-  monitor (hdr [(MintSeq 0, Ok (Some 0), ob (Some 0) None []);
-                (ApproveForAll [1] 1 2 50%Z, Ok None, ob (Some 0) None [((1, 2), true)]);
-                (TransferFrom [2] 2 0 2 0, Ok None, ob (Some 2) None [((1, 2), true)])]) = 3 /\
-  (* an approval given until ledger 5 000 000 is no longer reported after a long gap although it is
-     neither expired nor revoked nor cleared by a move (a lapsed storage entry) *)
-  monitor (hdr [(MintSeq 0, Ok (Some 0), ob (Some 0) None []);
-                (Approve [0] 0 3 0 5000000%Z, Ok None, ob (Some 0) (Some 3) []);
-                (Advance 600000, Ok None, ob (Some 0) None [])]) = 3 /\
-  (* the same for an operator *)
-  monitor (hdr [(MintSeq 0, Ok (Some 0), ob (Some 0) None []);
-                (ApproveForAll [0] 0 2 5000000%Z, Ok None, ob (Some 0) None [((0, 2), true)]);
-                (Advance 600000, Ok None, ob (Some 0) None [((0, 2), false)])]) = 3 /\
-  (* the right account but its authorisation is not attached to the call *)
-  monitor (hdr [(MintSeq 0, Ok (Some 0), ob (Some 0) None []);
-                (Burn [1] 0 0, Ok None, ob None None [])]) = 2.
+(* ---------- Examples ---------- *)
+Definition c0 := Build_cfg (Build_hostcfg 1 1000) 3200 32000.
+Fixpoint nseq (lo : N) (n : nat) : list N := match n with O => [] | S k => lo :: nseq (lo + 1) k end.
+Definition idx {A} (l : list A) : list (N * A) := combine (nseq 0 (length l)) l.
+(* one sequentially minted token 0: ids 0..3 queried *)
+Definition ob1 (own ap : option addr) (op : list ((addr * addr) * bool)) : obs :=
+  mkObs 1 (idx [own; None; None; None]) [] (idx [ap; None; None; None]) op 0 [] [].
+Definition hdr := mkTrace FBase c0 10 true.
+(* query shapes for model traces *)
+Definition q (ids : list N) (pairs : list (addr * addr)) : obs :=
+  mkObs 0 (map (fun i => (i, None)) ids) [] (map (fun i => (i, None)) ids) (map (fun k => (k, false)) pairs) 0 [] [].
+
+(* the hypothesis of C11_monitor_accepts_model holds on real query shapes *)
+Example C11_wf_satisfiable :
+  wf_run FCons c0 (init 10) (ghost0 10)
+    [(BatchMint 0 3, q [0;1;2;3;4;5] []); (ApproveForAll [0] 0 2 50%Z, q [0;1;2;3;4;5] [(0, 2)]);
+     (Approve [2] 2 3 1 40%Z, q [0;1;2;3;4;5] [(0, 2)]); (TransferFrom [3] 3 0 1 1, q [0;1;2;3;4;5] [(0, 2)])] = true /\
+  wf_run FBase c0 (init 10) (ghost0 10)
+    [(MintId 0 1000, q [0;1;2;1000] []); (Approve [0] 0 1 1000 40%Z, q [0;1;2;1000] [])] = true.
 Proof. vm_compute. repeat split. Qed.
 
-(* non-vacuity of the history theorems: a reachable state in which an approval is reported *)
+(* the monitor is not vacuous: it rejects a transfer_from by a stranger that succeeds, a stale approval still
+   reported after a transfer, an approval used after its live_until, an operator acting on somebody else's
+   token, approvals / operators lost before their live_until, a move without the actor's authorisation *)
+Example C11_monitor_rejects_bad_traces :
+  monitor (hdr [(MintSeq 0, Ok (Some 0), ob1 (Some 0) None []);
+                (TransferFrom [2] 2 0 2 0, Ok None, ob1 (Some 2) None [])]) = 2 /\
+  monitor (hdr [(MintSeq 0, Ok (Some 0), ob1 (Some 0) None []);
+                (Approve [0] 0 3 0 50%Z, Ok None, ob1 (Some 0) (Some 3) []);
+                (Transfer [0] 0 1 0, Ok None, ob1 (Some 1) (Some 3) [])]) = 3 /\
+  monitor (hdr [(MintSeq 0, Ok (Some 0), ob1 (Some 0) None []);
+                (Approve [0] 0 3 0 50%Z, Ok None, ob1 (Some 0) (Some 3) []);
+                (Transfer [0] 0 1 0, Ok None, ob1 (Some 1) None [])]) = 0 /\
+  monitor (hdr [(MintSeq 0, Ok (Some 0), ob1 (Some 0) None []);
+                (Approve [0] 0 3 0 12%Z, Ok None, ob1 (Some 0) (Some 3) []);
+                (Advance 3, Ok None, ob1 (Some 0) None []);
+                (TransferFrom [3] 3 0 3 0, Ok None, ob1 (Some 3) None [])]) = 4 /\
+  monitor (hdr [(MintSeq 0, Ok (Some 0), ob1 (Some 0) None []);
+                (ApproveForAll [1] 1 2 50%Z, Ok None, ob1 (Some 0) None [((1, 2), true)]);
+                (TransferFrom [2] 2 0 2 0, Ok None, ob1 (Some 2) None [((1, 2), true)])]) = 3 /\
+  monitor (hdr [(MintSeq 0, Ok (Some 0), ob1 (Some 0) None []);
+                (Approve [0] 0 3 0 5000000%Z, Ok None, ob1 (Some 0) (Some 3) []);
+                (Advance 600000, Ok None, ob1 (Some 0) None [])]) = 3 /\
+  monitor (hdr [(MintSeq 0, Ok (Some 0), ob1 (Some 0) None []);
+                (ApproveForAll [0] 0 2 5000000%Z, Ok None, ob1 (Some 0) None [((0, 2), true)]);
+                (Advance 600000, Ok None, ob1 (Some 0) None [((0, 2), false)])]) = 3 /\
+  monitor (hdr [(MintSeq 0, Ok (Some 0), ob1 (Some 0) None []);
+                (Burn [1] 0 0, Ok None, ob1 None None [])]) = 2.
+Proof. vm_compute. repeat split. Qed.
+
+(* the monitor stands on its own (review traces): a sequential mint re-issuing a live id (T2) and an Advance
+   reported as failed (T5, would freeze the reference clock) are rejected; nothing observed (T4), approvals
+   not asked for the ids owner_of is asked for, an appointed pair not asked, a call returning a value are
+   rejected as malformed *)
+Example C11_monitor_rejects_malformed_traces :
+  monitor (hdr [(MintSeq 0, Ok (Some 0), ob1 (Some 0) None []);
+                (Approve [0] 0 3 0 50%Z, Ok None, ob1 (Some 0) (Some 3) []);
+                (MintSeq 1, Ok (Some 0), ob1 (Some 1) (Some 3) [])]) = 3 /\
+  monitor (hdr [(MintSeq 0, Ok (Some 0), ob1 (Some 0) None []);
+                (Approve [0] 0 3 0 12%Z, Ok None, ob1 (Some 0) (Some 3) []);
+                (Advance 100, Fail, ob1 (Some 0) (Some 3) []);
+                (TransferFrom [3] 3 0 3 0, Ok None, ob1 (Some 3) None [])]) = 3 /\
+  monitor (hdr [(MintSeq 0, Ok (Some 0), mkObs 1 [] [] [] [] 0 [] [])]) = 1 /\
+  monitor (hdr [(MintSeq 0, Ok (Some 0), mkObs 1 (idx [Some 0; None; None; None]) [] [] [] 0 [] [])]) = 1 /\
+  monitor (hdr [(MintSeq 0, Ok (Some 0), ob1 (Some 0) None []);
+                (ApproveForAll [0] 0 2 50%Z, Ok None, ob1 (Some 0) None [])]) = 2 /\
+  monitor (hdr [(MintSeq 0, Ok (Some 0), ob1 (Some 0) None []);
+                (Approve [0] 0 3 0 50%Z, Ok (Some 7), ob1 (Some 0) (Some 3) [])]) = 2 /\
+  monitor (mkTrace FCons c0 10 true
+    [(BatchMint 0 3, Ok (Some 2), mkObs 3 (idx [Some 0; Some 0; Some 0; None; None; None]) [] (idx [@None addr; None; None; None; None; None]) [] 0 [] []);
+     (BatchMint 1 3, Ok (Some 2), mkObs 3 (idx [Some 1; Some 1; Some 1; None; None; None]) [] (idx [@None addr; None; None; None; None; None]) [] 0 [] [])]) = 2.
+Proof. vm_compute. repeat split. Qed.
+
+(* THE BOUNDARY OF THE QUANTIFIER (documented caveat of the library: uniqueness of explicit ids is the
+   integrator's responsibility).  Owner 0 approves 3 for the explicitly minted token 1000; the id is minted
+   again to account 1 (Base::mint has no existence check and does not touch the approval): the model, like the
+   real code, still reports 3 as approved and lets 3 take the token from 1.  The same happens when the
+   sequential counter meets a live explicit id.  [fresh_run]-style freshness fails on these histories; the
+   strict monitor flags the re-mint, the scoped monitor stops judging there (the trace is compared with the
+   implementation by the diff only). *)
+Example C11_remint_keeps_stale_approval :
+  let cs := [MintId 0 1000; Approve [0] 0 3 1000 50%Z; MintId 1 1000] in
+  let s := run FBase c0 (init 10) cs in
+  (owner_of FBase c0 s 1000, get_approved s 1000, balance s 0, balance s 1) = (Some 1, Some 3, 1, 1) /\
+  is_ok (snd (step FBase c0 s (TransferFrom [3] 3 1 3 1000))) = true /\
+  fresh_ok FBase c0 (run FBase c0 (init 10) [MintId 0 1000; Approve [0] 0 3 1000 50%Z]) (MintId 1 1000) = false /\
+  let t := model_trace FBase c0 10 true
+             [(MintId 0 1000, q [0;1;2;1000] []); (Approve [0] 0 3 1000 50%Z, q [0;1;2;1000] []);
+              (MintId 1 1000, q [0;1;2;1000] []); (TransferFrom [3] 3 1 3 1000, q [0;1;2;1000] [])] in
+  monitor_strict t = 3 /\ monitor t = 0 /\ diff t = 0 /\
+  (* the counter meeting a live explicit id *)
+  let s2 := run FBase c0 (init 10) [MintId 0 1; Approve [0] 0 3 1 50%Z; MintSeq 2; MintSeq 2] in
+  (owner_of FBase c0 s2 1, get_approved s2 1, is_ok (snd (step FBase c0 s2 (BurnFrom [3] 3 2 1)))) = (Some 2, Some 3, true).
+Proof. vm_compute. repeat split. Qed.
+
+(* non-vacuity of the history theorems: reachable states in which an approval given by the owner, an operator,
+   and an approval given BY an operator are reported and honoured *)
 Example C11_reachable_approval :
-  let c := Build_cfg (Build_hostcfg 1 1000) 3200 32000 in
   let cs := [BatchMint 0 5; Approve [0] 0 3 2 50%Z; Transfer [0] 0 1 4; Advance 7] in
-  get_approved (run FCons c (init 10) cs) 2 = Some 3 /\
-  get_approved (run FCons c (init 10) (cs ++ [TransferFrom [3] 3 0 3 2])) 2 = None /\
-  owner_of FCons c (run FCons c (init 10) (cs ++ [TransferFrom [3] 3 0 3 2])) 2 = Some 3 /\
-  owner_of FCons c (run FCons c (init 10) (cs ++ [TransferFrom [3] 3 0 3 2])) 1 = Some 0.
+  get_approved (run FCons c0 (init 10) cs) 2 = Some 3 /\
+  get_approved (run FCons c0 (init 10) (cs ++ [TransferFrom [3] 3 0 3 2])) 2 = None /\
+  owner_of FCons c0 (run FCons c0 (init 10) (cs ++ [TransferFrom [3] 3 0 3 2])) 2 = Some 3 /\
+  owner_of FCons c0 (run FCons c0 (init 10) (cs ++ [TransferFrom [3] 3 0 3 2])) 1 = Some 0 /\
+  let cs2 := [MintSeq 0; MintSeq 0; ApproveForAll [0] 0 2 60%Z; Approve [2] 2 4 1 40%Z; Advance 5] in
+  let s2 := run FEnum c0 (init 10) cs2 in
+  (is_approved_for_all s2 0 2, get_approved s2 1, is_approved_for_all s2 2 0) = (true, Some 4, false) /\
+  is_ok (snd (step FEnum c0 s2 (TransferFrom [4] 4 0 4 1))) = true /\
+  is_ok (snd (step FEnum c0 s2 (BurnFrom [2] 2 0 0))) = true /\
+  is_ok (snd (step FEnum c0 (run FEnum c0 s2 [Advance 46]) (BurnFrom [2] 2 0 0))) = false.
 Proof. vm_compute. repeat split. Qed.
